@@ -16,7 +16,7 @@ var c02Alpha = alphaOpt{Tables: []string{"t1", "t2"}, Inserts: []int{1, 9}, Upda
 
 func runC02(env *lib.Env, rep *lib.Report) {
 	d, bound := 3, 1
-	seeds := []string{"empty", "t1x8", "t1x8+t2t3", "t1x8-upper-deleted", "t1x8+t2t3-crashed", "interleaved"}
+	seeds := []string{"empty", "t1x8", "t1x8+t2t3", "t1x8-upper-deleted", "t1x8+t2t3-crashed", "interleaved", "t1x12+t2x1"}
 	if env.Thorough() {
 		d, bound = 4, 2
 		seeds = append(seeds, "t1x8-crashed", "t1x30", "catalog-split")
